@@ -684,15 +684,18 @@ Proof.
   all: gfin k.
 Qed.
 
+Lemma G_sockets : forall s0 x, reach s0 x -> reach s0 (shutdown_sockets x).
+Proof.
+  intros s0 x R. unfold shutdown_sockets. destruct (s_listening x).
+  - eapply r_step; [eapply r_step; [exact R | apply g_unlisten] | apply g_pending].
+  - destruct (s_pending x); auto.
+    eapply r_step; [eapply r_step; [eapply r_step; [exact R | apply g_dropfd] | apply g_dead] | apply g_pending].
+Qed.
+
 Lemma G_shutdown : forall s0 x, reach s0 x -> reach s0 (shutdown_server x).
 Proof.
   intros. unfold shutdown_server.
-  assert (R : reach s0 (fold_left shutdown_one (s_order x) x)).
-  { apply G_fold; auto. intros y j Hy. eapply (G_k j); [|exact Hy]. fin. }
-  unfold shutdown_sockets. destruct (s_listening (fold_left shutdown_one (s_order x) x)).
-  - eapply r_step; [eapply r_step; [exact R | apply g_unlisten] | apply g_pending].
-  - destruct (s_pending (fold_left shutdown_one (s_order x) x)); auto.
-    eapply r_step; [eapply r_step; [eapply r_step; [exact R | apply g_dropfd] | apply g_dead] | apply g_pending].
+  apply G_fold; [|apply G_sockets; auto]. intros y j Hy. eapply (G_k j); [|exact Hy]. fin.
 Qed.
 
 Lemma G_cleanup : forall s0 x, reach s0 x -> reach s0 (screen_cleanup x).
@@ -940,27 +943,15 @@ Proof. intros. apply fold_k_reach. apply R_shutdown_one0. Qed.
 Lemma shutdown_frees_all : forall s, inv s ->
   s_hung (shutdown_server s) = false -> forall k, freed_at (shutdown_server s) k.
 Proof.
-  intros s I Hh k.
-  assert (Hh1 : s_hung (fold_left shutdown_one (s_order s) s) = false).
-  { unfold shutdown_server, shutdown_sockets in Hh. destruct (s_listening (fold_left shutdown_one (s_order s) s)); auto.
-    destruct (s_pending (fold_left shutdown_one (s_order s) s)); auto. }
-  assert (F : freed_at (fold_left shutdown_one (s_order s) s) k).
-  { destruct (fold_clients shutdown_one R_shutdown_one0 (fun _ => True) (fun _ _ H => H))
-      with (P := freed_at) (Q := fun (_ : screen) (_ : nat) => True) (l := s_order s) (s := s) as [F1 F2]; auto.
-    - unfold freed_at. intros ? ? ? E. rewrite E. auto.
-    - intros s0 k0 _ _ Hh0. apply shutdown_one_frees; auto.
-    - destruct (in_dec Nat.eq_dec k (s_order s)) as [Hin|Hn].
-      + apply F1; auto.
-      + unfold freed_at. rewrite F2 by auto. apply not_in_order_freed; auto. }
-  unfold shutdown_server, shutdown_sockets. destruct (s_listening (fold_left shutdown_one (s_order s) s)); auto.
-  destruct (s_pending (fold_left shutdown_one (s_order s) s)); auto.
-  (* the inetd descriptor that was never handed over: closed here, a record that is already gone *)
-  unfold freed_at in *. unfold get, dead_conn in *. simpl.
-  destruct (Nat.lt_ge_cases k (length (s_conns (fold_left shutdown_one (s_order s) s)))) as [Hlt|Hge].
-  - rewrite nth_error_app1 by auto. exact F.
-  - rewrite nth_error_app2 by auto.
-    destruct (k - length (s_conns (fold_left shutdown_one (s_order s) s)))%nat as [|n]; simpl; auto.
-    destruct n; simpl; auto.
+  intros s I Hh k. unfold shutdown_server in *. set (s1 := shutdown_sockets s) in *.
+  assert (I1 : inv s1) by (eapply reach_inv; [apply G_sockets; apply r_refl | exact I]).
+  destruct (fold_clients shutdown_one R_shutdown_one0 (fun _ => True) (fun _ _ H => H))
+    with (P := freed_at) (Q := fun (_ : screen) (_ : nat) => True) (l := s_order s1) (s := s1) as [F1 F2]; auto.
+  - unfold freed_at. intros ? ? ? E. rewrite E. auto.
+  - intros s0 k0 _ _ Hh0. apply shutdown_one_frees; auto.
+  - destruct (in_dec Nat.eq_dec k (s_order s1)) as [Hin|Hn].
+    + apply F1; auto.
+    + unfold freed_at. rewrite F2 by auto. apply not_in_order_freed; auto.
 Qed.
 
 (* ------------------------------------------------------------------ no teardown ever blocks *)
